@@ -159,7 +159,37 @@ Section Rel.
     - intros [= <- <- <-]. eauto 6.
     - eauto.
   Qed.
+
+  Lemma Rel_add_many c S L eo et :
+    Rel c S eo et ->
+    (forall x, In x L -> lookup x eo = lookup x et /\ assoc x (cx_v c) = None /\ assoc x (cx_b c) = None) ->
+    Rel c (L ++ S) eo et.
+  Proof.
+    intros (RV & RI & RB) HL. split; [|split].
+    - intros x Hx. destruct (in_dec N.eq_dec x L) as [Hl|Hn].
+      + destruct (HL x Hl) as (E & Ev & _). cbn [opt_expr]. rewrite Ev. unfold eval. now rewrite E.
+      + rewrite in_app_iff in Hx. destruct Hx; [contradiction | auto].
+    - intros x y Hx. destruct (in_dec N.eq_dec x L) as [Hl|Hn].
+      + destruct (HL x Hl) as (_ & Ev & _). cbn [opt_expr]. rewrite Ev. intros [= <-]. apply in_or_app; auto.
+      + rewrite in_app_iff in Hx. destruct Hx as [Hx|Hx]; [contradiction|]. intros E. apply in_or_app. right. eauto.
+    - intros z op y k Hz E. destruct (in_dec N.eq_dec z L) as [Hl|Hn].
+      + destruct (HL z Hl) as (_ & _ & Eb). congruence.
+      + rewrite in_app_iff in Hz. destruct Hz as [Hz|Hz]; [contradiction|].
+        destruct (RB z op y k Hz E) as (Hy & R). split; [apply in_or_app; right; assumption | exact R].
+  Qed.
+
 End Rel.
+
+Lemma Rel_init w S en : Rel w cx0 S en en.
+Proof.
+  split; [|split].
+  - intros x _. reflexivity.
+  - intros x y Hx [= <-]. exact Hx.
+  - intros z op y k _ E. discriminate.
+Qed.
+Lemma cx_wf_init D : cx_wf cx0 D.
+Proof. split; intros; discriminate. Qed.
+
 
 (* ---- static facts about bind ---- *)
 Lemma bind_inv x e c c' : bind x e c = Some c' ->
